@@ -131,6 +131,15 @@ func (r *repository) UpdateRuleSet(srcID string, rules []rule.Rule) error {
 		return ruleGone || ruleChanged
 	})
 
+	// Rules sharing a path expression are matched in the order they have been added to the index.
+	// To have that order follow the order of the rules in the new version of the rule set, all rules
+	// of the rule set are replaced as soon as anything, including the order of the rules, has changed.
+	if len(toBeAdded) != 0 || len(toBeDeleted) != 0 ||
+		!slices.EqualFunc(applicable, rules, func(a, b rule.Rule) bool { return a.SameAs(b) }) {
+		toBeDeleted = applicable
+		toBeAdded = rules
+	}
+
 	tmp := r.index.Clone()
 
 	// delete rules
